@@ -103,7 +103,7 @@ Qed.
 
 (* the rows before ORDER BY *)
 Definition raw_cands (net : bool) (d : db) : list row :=
-  if net then flat_map (net_rows (sblobs d)) (blobs d)
+  if net then flat_map (net_rows (sblobs d) (streams d)) (blobs d)
   else flat_map (content_rows (sblobs d) (streams d) (files d)) (blobs d)
        ++ flat_map (sd_rows (streams d) (files d)) (blobs d).
 
@@ -268,6 +268,7 @@ Proof.
     destruct (b_mine b) eqn:Em; simpl in Hr; [contradiction|].
     destruct (b_fin b); simpl in Hr; [|contradiction].
     destruct (count_sb (sblobs d) (b_hash b) =? 0)%nat eqn:Ec; simpl in Hr; [|contradiction].
+    destruct (is_sd (streams d) (b_hash b)) eqn:Es; simpl in Hr; [contradiction|].
     destruct Hr as [Hr|[]]. apply Nat.eqb_eq in Ec. repeat split; auto.
   - intro H. apply in_app_or in H as [H|H]; apply in_flat_map in H as [b [Hb Hr]]; exists b.
     + unfold content_rows in Hr. destruct (b_mine b) eqn:Em; simpl in Hr; [contradiction|].
@@ -549,16 +550,15 @@ Proof.
     pose proof (mb_scale (N.of_nat (count_sb (sblobs d) (b_hash b))) (b_len b)). nia.
 Qed.
 
-Lemma net_blob_bound d H b : sd_small d -> In b (blobs d) ->
-  nsum (map (gP H) (net_rows (sblobs d) b))
+(* no hypothesis needed for the network class any more: descriptors are neither counted nor candidates *)
+Lemma net_blob_bound d H b :
+  nsum (map (gP H) (net_rows (sblobs d) (streams d) b))
   <= if mem (b_hash b) H then mb (net_term (sblobs d) (streams d) b) else 0.
 Proof.
-  intros Hsd Hb. unfold net_rows, net_term, counted.
-  destruct (b_mine b), (b_fin b), (count_sb (sblobs d) (b_hash b) =? 0)%nat; simpl;
+  unfold net_rows, net_term, counted.
+  destruct (b_mine b), (b_fin b), (count_sb (sblobs d) (b_hash b) =? 0)%nat, (is_sd (streams d) (b_hash b)); simpl;
     try (destruct (mem (b_hash b) H); lia).
-  rewrite gP_row_of. destruct (mem (b_hash b) H); [|lia].
-  destruct (is_sd (streams d) (b_hash b)) eqn:Esd; simpl; [|lia].
-  rewrite (mb_small (b_len b)) by (apply Hsd; assumption). lia.
+  rewrite gP_row_of. destruct (mem (b_hash b) H); lia.
 Qed.
 
 Lemma guarded_mb_sum (p : blob -> bool) (f : blob -> N) l :
@@ -591,10 +591,10 @@ Proof.
   - unfold net_bytes at 1. unfold remove_hashes. cbn [blobs sblobs streams].
     unfold net_bytes. rewrite (bytes_split (net_term (sblobs d) (streams d)) H (blobs d)).
     rewrite nsum_flat_map in Hcred.
-    assert (Hd : nsum (map (fun a => nsum (map (gP H) (net_rows (sblobs d) a))) (blobs d))
+    assert (Hd : nsum (map (fun a => nsum (map (gP H) (net_rows (sblobs d) (streams d) a))) (blobs d))
                  <= mb (nsum (map (fun b => if mem (b_hash b) H then net_term (sblobs d) (streams d) b else 0) (blobs d)))).
     { eapply N.le_trans; [|apply guarded_mb_sum]. apply nsum_map_le. intros b Hb.
-      apply net_blob_bound; [apply Hw | exact Hb]. }
+      apply net_blob_bound. }
     pose proof (mb_superadd (nsum (map (fun b => if mem (b_hash b) H then net_term (sblobs d) (streams d) b else 0) (blobs d)))
                             (nsum (map (net_term (sblobs d) (streams d)) (filter (fun b => negb (mem (b_hash b) H)) (blobs d))))).
     lia.
@@ -678,11 +678,11 @@ Proof.
 Qed.
 
 Lemma rows_are_row_of d b r :
-  (In r (net_rows (sblobs d) b) \/ In r (content_rows (sblobs d) (streams d) (files d) b)
+  (In r (net_rows (sblobs d) (streams d) b) \/ In r (content_rows (sblobs d) (streams d) (files d) b)
    \/ In r (sd_rows (streams d) (files d) b)) -> r = row_of b.
 Proof.
   unfold net_rows, content_rows, sd_rows. intros [H|[H|H]].
-  - destruct (negb (b_mine b) && b_fin b && (count_sb (sblobs d) (b_hash b) =? 0)%nat); simpl in H; [|contradiction].
+  - destruct (negb (b_mine b) && b_fin b && (count_sb (sblobs d) (b_hash b) =? 0)%nat && negb (is_sd (streams d) (b_hash b))); simpl in H; [|contradiction].
     destruct H as [H|[]]. auto.
   - destruct (negb (b_mine b) && b_fin b); [|contradiction]. eapply repeat_spec; exact H.
   - destruct (negb (b_mine b)); [|contradiction]. eapply repeat_spec; exact H.
@@ -912,6 +912,35 @@ Proof.
   rewrite B. apply own_hashes_app_l. rewrite setup_rows_own. exact Ho.
 Qed.
 
+Lemma recover_row_hash sd now ms dk b : b_hash (recover_row sd now ms dk b) = b_hash b.
+Proof. unfold recover_row. destruct (b_hash b =? sd); [reflexivity|]. destruct (mem (b_hash b) ms); reflexivity. Qed.
+
+Lemma recover_row_mine sd now ms dk b : b_mine (recover_row sd now ms dk b) = b_mine b.
+Proof. unfold recover_row. destruct (b_hash b =? sd); [reflexivity|]. destruct (mem (b_hash b) ms); reflexivity. Qed.
+
+(* stream recovery keeps every row's ownership *)
+Lemma recover_keeps_own sd now d h : hashes_unique d -> In h (own_hashes d) ->
+  In h (own_hashes (recover sd now d)) /\ hashes_unique (recover sd now d) /\
+  (In h (disk d) -> In h (disk (recover sd now d))).
+Proof.
+  unfold hashes_unique, own_hashes, recover. cbn [blobs disk]. intros Hn Ho. split; [|split].
+  - apply in_map_iff in Ho as [b [E Hb]]. apply filter_In in Hb as [Hb Hm]. apply in_map_iff.
+    eexists. split; [|apply filter_In; split; [apply in_map; exact Hb | rewrite recover_row_mine; exact Hm]].
+    rewrite recover_row_hash. exact E.
+  - rewrite map_map. erewrite map_ext; [exact Hn|]. intro b. apply recover_row_hash.
+  - intro Hd. destruct (mem sd (disk d)); [exact Hd | apply in_or_app; left; exact Hd].
+Qed.
+
+Lemma recover_all_keeps_own now sds : forall d h, hashes_unique d -> In h (own_hashes d) ->
+  In h (own_hashes (fold_left (fun acc sd => recover sd now acc) sds d)) /\
+  hashes_unique (fold_left (fun acc sd => recover sd now acc) sds d) /\
+  (In h (disk d) -> In h (disk (fold_left (fun acc sd => recover sd now acc) sds d))).
+Proof.
+  induction sds as [|sd r IH]; intros d h Hn Ho; [simpl; tauto|].
+  destruct (recover_keeps_own sd now d h Hn Ho) as [A1 [A2 A3]].
+  destruct (IH (recover sd now d) h A2 A1) as [B1 [B2 B3]]. simpl. auto.
+Qed.
+
 Lemma restore_list_incl hs : forall dk h, In h dk -> In h (restore_list hs dk).
 Proof.
   induction hs as [|x r IH]; intros dk h H; simpl; [exact H|]. apply IH.
@@ -925,7 +954,7 @@ Lemma history_never_own ops : forall d h, hashes_unique d -> In h (own_hashes d)
   (In h (disk d) -> ~ In h (hidden ops) -> In h (disk (snd (run ops d)))).
 Proof.
   induction ops as [|o r IH]; intros d h Hn Ho Hu; [simpl; tauto|].
-  destruct o as [net limit|cl nl|b|hs|hs|hs|now sizes|]; cbn [run]; cbn [user_deleted] in Hu; cbn [hidden].
+  destruct o as [net limit|cl nl|b|hs|hs|hs|sds now|now sizes|]; cbn [run]; cbn [user_deleted] in Hu; cbn [hidden].
   - pose proof (pass_keeps_own net limit d h Hn Ho) as [A1 [A2 A3]].
     pose proof (clean_pass_unique net limit d Hn) as Hn1.
     destruct (clean_pass net limit d) as [dl d1]. cbn [fst snd] in *.
@@ -958,6 +987,10 @@ Proof.
     destruct (run r (restore_files hs d)) as [tr d2]. cbn [fst snd] in *.
     destruct IH as [I1 [I2 I3]]. split; [exact I1|]. split; [exact I2|].
     intros Hd Hh. apply I3; [|exact Hh]. unfold restore_files. cbn [disk]. apply restore_list_incl. exact Hd.
+  - pose proof (recover_all_keeps_own now sds d h Hn Ho) as [A1 [A2 A3]].
+    specialize (IH _ h A2 A1 Hu).
+    destruct (run r (fold_left (fun acc sd => recover sd now acc) sds d)) as [tr d2]. cbn [fst snd] in *.
+    destruct IH as [I1 [I2 I3]]. split; [exact I1|]. split; [exact I2|]. intros Hd Hh. apply I3; [apply A3; exact Hd | exact Hh].
   - pose proof (setup_keeps_own now sizes d h Hn Ho) as [A1 [A2 A3]].
     specialize (IH (setup now sizes d) h A2 A1 Hu).
     destruct (run r (setup now sizes d)) as [tr d2]. cbn [fst snd] in *.
@@ -972,7 +1005,7 @@ Lemma run_app ops1 : forall ops2 d,
   (fst (run ops1 d) ++ fst (run ops2 (snd (run ops1 d))), snd (run ops2 (snd (run ops1 d)))).
 Proof.
   induction ops1 as [|o r IH]; intros ops2 d; [simpl; apply surjective_pairing|].
-  destruct o as [net limit|cl nl|b|hs|hs|hs|now sizes|]; cbn [run app]; try apply IH.
+  destruct o as [net limit|cl nl|b|hs|hs|hs|sds now|now sizes|]; cbn [run app]; try apply IH.
   - destruct (clean_pass net limit d) as [dl d1]. rewrite IH.
     destruct (run r d1) as [tr d2]. reflexivity.
   - destruct (clean cl nl d) as [[dl1 dl2] d1]. rewrite IH.
@@ -1185,3 +1218,12 @@ Proof.
   - rewrite T; [reflexivity|]. intros b Hb. unfold net_term, counted. rewrite Hb. reflexivity.
   - rewrite !T; [reflexivity | |]; intros b Hb; unfold private_term, content_term, counted; rewrite Hb; reflexivity.
 Qed.
+
+(* ------------------------------------------------------------------------------------------ *)
+(* configuration layers                                                                        *)
+(* ------------------------------------------------------------------------------------------ *)
+
+(* whatever the command line / environment / config file say, a limit the user assigns is the limit in force,
+   including 0 (= the default = unlimited content storage) *)
+Lemma assign_effective updating v l : effective (assign updating v l) = v.
+Proof. reflexivity. Qed.
